@@ -161,6 +161,7 @@ func (e *Env) sqlSpaces(thorough bool) []*Space {
 		}
 		top := e.sigma("sql", "sql", a, 4, lenientCensors, nil, nil)
 		e.boundInfo["sql"] = fmt.Sprintf("L<=3 over %d tokens for all decoders, L=4 for the ignore_parse_error firewall entry points", len(a.Tok))
+		out = append(out, e.censorPatternSpaces(false)...)
 		return append(out, top[4])
 	}
 	// thorough: all twelve decoders up to L=4; at L=5 the six AcraCensor entry points only
@@ -174,5 +175,6 @@ func (e *Env) sqlSpaces(thorough bool) []*Space {
 		}
 	}
 	top := e.sigma("sql", "sql", a, 5, censors, nil, nil)
+	out = append(out, e.censorPatternSpaces(true)...)
 	return append(out, top[5])
 }
